@@ -69,7 +69,8 @@ var propInfo = map[string]struct {
 		[]string{
 			"batch scans: the three cursor scans return exactly the filter-passing pairs of the cursor segment they consume, in order, and a short batch means the region is exhausted - the same sequence the row forms produce call by call (C01 clauses found / skipped / end); MultiGetPlan.Batch: soundness and progress only (see C01)",
 			"vector functions that evaluate row by row (join, int_list, float_list, functions without a vector body) are proved to call the row form without the shared per-row cache (D22 repaired) and int_list / float_list to produce the row form's lists",
-			"NOT covered: projection / order / aggregate-rendering batch forms, the other vector forms of the scalar functions, IN / BETWEEN / regexp / string concatenation (thin assumed contracts), the chunk caches (FieldReferenceExpr.ExecuteBatch, AdjustChunkCache: assumed thin contract; D21 repaired but not yet pinned by an obligation)",
+			"row-mode projection shows every documented value kind, lists included (D24 repaired); FieldReferenceExpr.ExecuteBatch returns a slice of its own (callers overwrite operand columns in place) and, with the cache off, the alias's values; vector forms of the scalar functions: see C10",
+			"NOT covered: projection / order / aggregate-rendering batch forms, IN / BETWEEN / regexp / string concatenation (thin assumed contracts), the chunk caches (FieldReferenceExpr.ExecuteBatch, AdjustChunkCache: assumed thin contract; D21 repaired but not yet pinned by an obligation)",
 			"the vector form of & and | evaluates both operands on every row (no short cut): it can fail where the row form succeeds; the property only demands the converse, which is what is proved",
 			"doc_bin / doc_not restate, through the definitional interface clauses, what BinaryOpExpr.Execute / NotExpr.Execute were proved to compute (same predicates docBin / docNot in both places)",
 			"the registered function bodies are called through function values with assumed frame-only contracts",
@@ -84,7 +85,8 @@ var propInfo = map[string]struct {
 	"C10": {"proof",
 		"Row forms, proved on the real code against the one-line descriptions of the README: the coercions toString / toInt / toFloat (an integer renders in decimal - fmt's %d is strconv's decimal rendering -, decimal text reads back as that integer / float, text stays text), str / int / float / is_int / is_float / strlen (byte count) on the value of their argument with exact definedness, substr (the bytes from start up to end, both clamped; D6 repaired), len (element count of every list representation: []string, []int64, []float64, [][]byte, []any; D17 repaired) and byte count of a text, int_list / float_list (arguments in order: ghost index), indexing with [n] (element n of []any / []string / []int64 / []float64; D17 repaired), and l2_distance / cosine_distance refusing vectors of different lengths.",
 		[]string{
-			"NOT covered: upper / lower (case mapping is strings.ToUpper / ToLower: T-STD), split / join and their inverse relation (needs a theory of strings.Split / Join), list() dispatch on its first argument, the numeric value of the distances (uninterpreted floats), json() parsing and dictionary access (encoding/json is external), and the vector (batch) forms of all functions (C03)",
+			"vector (batch) forms: str / int / float / is_int / is_float / strlen / substr / len / split / list / int_list / float_list are proved to produce, row by row, what their row forms produce (same postconditions over the value of the arguments on pair r); split is specified by provenance only (the list strings.Split returns for exactly this text and separator: T-STD), list() by its int / float dispatch on the row's own first value (D25 repaired)",
+			"NOT covered: upper / lower (case mapping is strings.ToUpper / ToLower: T-STD), the elements of split's result and the split / join inverse relation (needs a theory of strings.Split / Join), join's value, the numeric value of the distances (uninterpreted floats), json() parsing and dictionary access (encoding/json is external), the vector forms of upper / lower / json / join (value) / the distances",
 			"T-STD: strconv.ParseInt(strconv.Itoa(i)) == i (axiom), fmt.Sprintf(\"%d\", i) == strconv.Itoa(i) for integer values",
 			"int('abc') returns 0 rather than the documented error: observed, not claimed either way",
 		}},
